@@ -76,11 +76,12 @@ func runC17(c *Ctx) {
 		"DET-COLLECT|ctl17.SortFuncPartial", "DET-COLLECT|ctl17.SorterByPosition",
 		"DET-MAPRANGE|ctl17.LabelledFirstHit", "DET-MAPRANGE|ctl17.ContinueOuter",
 		"DET-COLLECT|ctl17.SortKeyFuncPartial", "DET-COLLECT|ctl17.SortKeyCounting",
-		"DET-COLLECT|ctl17.DecoratePartial", "DET-COLLECT|ctl17.DecorateHalf", "DET-COLLECT|ctl17.DecorateForgotten", "DET-COLLECT|ctl17.ImageUnsorted"}
+		"DET-COLLECT|ctl17.DecoratePartial", "DET-COLLECT|ctl17.DecorateHalf", "DET-COLLECT|ctl17.DecorateForgotten", "DET-COLLECT|ctl17.ImageUnsorted",
+		"DET-COLLECT|ctl17.NamedLessPartial", "DET-COLLECT|ctl17.NamedPeek", "DET-MAPRANGE|ctl17.GuardLast"}
 	for _, w := range want {
 		c.check(fired[w] > 0, "DET-CONTROL", "control", w, token.NoPos, "positive control fired", "the positive control "+w+" was not reported: the rule is broken")
 	}
-	silent := []string{"ctl17.KeyedCopy", "ctl17.SortedKeys", "ctl17.MinMax", "ctl17.SortFuncTotal", "ctl17.SorterType", "ctl17.InnerLabel", "ctl17.SortKeyFunc", "ctl17.Decorate"}
+	silent := []string{"ctl17.KeyedCopy", "ctl17.SortedKeys", "ctl17.MinMax", "ctl17.SortFuncTotal", "ctl17.SorterType", "ctl17.InnerLabel", "ctl17.SortKeyFunc", "ctl17.Decorate", "ctl17.NamedLess", "ctl17.GuardMinMax"}
 	for _, s := range silent {
 		n := 0
 		for k, v := range fired {
@@ -382,9 +383,31 @@ func (d *detAnalyzer) collected(fn string, list []ast.Stmt, i int, obj types.Obj
 	}
 	construct := src + " → " + obj.Name()
 	images := map[types.Object][2]int{} // image slice → (statement that derives it, statement that sorts it)
+	var closures []types.Object         // local names bound to function literals that capture the slice
+	for k := 0; k <= i && k < len(list); k++ {
+		if names, isBinding := d.closureBinding(list[k]); isBinding && d.mentions(list[k], obj) {
+			closures = append(closures, names...)
+		}
+	}
 	for j := i + 1; j < len(list); j++ {
 		st := list[j]
+		viaClosure := types.Object(nil)
+		for _, f := range closures {
+			if d.mentions(st, f) {
+				viaClosure = f
+			}
+		}
 		if !d.mentions(st, obj) {
+			if viaClosure != nil {
+				// the function may read the slice in the order the map delivered, and it is used here
+				d.emit("DET-COLLECT", fn, construct, pos, false, "", "the slice holding "+src+" (map iteration order) is used at "+d.c.pos(st.Pos())+" before it is sorted: `"+viaClosure.Name()+"`, a function that captures the slice, is used")
+				return false, j
+			}
+			continue
+		}
+		if names, isBinding := d.closureBinding(st); isBinding {
+			// binding a function literal to a name reads nothing; the name stands for a use of the slice
+			closures = append(closures, names...)
 			continue
 		}
 		if sorted, why := d.isTotalSort(st, obj); sorted {
@@ -392,6 +415,11 @@ func (d *detAnalyzer) collected(fn string, list []ast.Stmt, i int, obj types.Obj
 			return true, j
 		} else if why != "" {
 			d.emit("DET-COLLECT", fn, construct, pos, false, "", "the slice holding "+src+" is sorted at "+d.c.pos(st.Pos())+" but the order is not total: "+why)
+			return false, j
+		}
+		if viaClosure != nil {
+			// not the sort itself: the function may read the slice in the order the map delivered
+			d.emit("DET-COLLECT", fn, construct, pos, false, "", "the slice holding "+src+" (map iteration order) is used at "+d.c.pos(st.Pos())+" before it is sorted: `"+viaClosure.Name()+"`, a function that captures the slice, is used")
 			return false, j
 		}
 		if from, ok := d.rewrittenFrom(list, j, obj, images); ok {
@@ -821,6 +849,12 @@ func (b *bodyClass) problem(pos token.Pos, format string, a ...any) {
 }
 
 func (b *bodyClass) block(list []ast.Stmt, top bool) {
+	if top && b.loopDepth == 0 {
+		// a guard that ends in `continue` is the if/else over the rest of the loop body
+		if norm := guardAsIfElse(list, b.ownLabel); norm != nil {
+			list = norm
+		}
+	}
 	for _, s := range list {
 		b.stmt(s)
 	}
